@@ -16,7 +16,7 @@ func init() {
 const replPath = modPath + "/replication"
 
 func checkC05(w *World, r *Report) {
-	r.Decides = "C05 is decided in its structural part only: (a) the worker asks for (recorded leader index)+1, read from the table's leader-index lookup; (b) in the batching loop every received command is appended exactly once, the sequence is tagged with the index of the same loop element between the append and the proposal, the last element cannot leave the loop without a proposal, the sequence is cleared only after the proposal, a failed proposal returns, and what is proposed is the marshalled sequence; (c) the leader index is written into the same batch as the data before the commit whenever one is present, and entries without one do not erase it (C03.b); (d) each shipped command carries its own index and the stream is dense (the obligations C06.a-c); (e) only the lease holder replicates (C15.c); (f) snapshot recovery loads into a fresh shard, forwards the stream's index and switches only after a successful load (C07.a, C07.c, C07.e); (g) table-set reconciliation deletes exactly follower tables absent from the leader's list and creates exactly leader tables absent from the follower's."
+	r.Decides = "C05 is decided in its structural part only: (a) the worker asks for (recorded leader index)+1, read from the table's leader-index lookup; (b) in the batching loop every received command is appended exactly once, the sequence is tagged with the index of the same loop element between the append and the proposal, the last element cannot leave the loop without a proposal, the sequence is cleared only after the proposal and always before the next command is appended, a failed proposal returns, and what is proposed is the marshalled sequence; (c) the leader index is written into the same batch as the data before the commit whenever one is present, and entries without one do not erase it (C03.b); (d) each shipped command carries its own index and the stream is dense, also when served from the leader's log cache (the obligations C06.a-d); (e) only the lease holder replicates (C15.c); (f) snapshot recovery loads into a fresh shard, forwards the stream's index and switches only after a successful load (C07.a, C07.c, C07.e); (g) table-set reconciliation deletes exactly follower tables absent from the leader's list and creates exactly leader tables absent from the follower's."
 	r.NotDecided = []string{"content equality at every moment, monotonicity of the recorded index, convergence and behaviour across restarts - all schedule- and history-dependent", "that dragonboat applies each proposed sequence exactly once"}
 	r.Assume = []string{"a SEQUENCE command is applied atomically with its leader index (C01.a-c)"}
 	a := w.FsmAnchors()
@@ -32,6 +32,7 @@ func checkC05(w *World, r *Report) {
 	c06Handler(w, r, "C05.d1", "d1-stream-range-arithmetic")
 	c06ReadLog(w, r, "C05.d2", "d2-log-read-decision")
 	c06Dense(w, r, "C05.d3", "d3-dense-ordered-labelled")
+	c06Cache(w, r, "C05.d4", "d4-leader-cache-dense")
 	c15Worker(w, r, "C05.e", "e-only-lease-holder")
 	c07Loader(w, r, "C05.f1", "f1-restore-no-record-lost")
 	c07Terminator(w, r, "C05.f2", "f2-restore-index-travels")
@@ -246,6 +247,8 @@ func c05Batching(w *World, r *Report) {
 		ob.Violate("no-last-element-test", fn.Pos(), "proposeBatch does not test for the last received command: a tail below the size threshold is never proposed")
 	}
 	// clearing only after the proposal
+	seqClearedOnEveryProposal := false
+	var seqClears []ssa.Instruction
 	for _, f := range withClosures(fn) {
 		eachInstr(f, func(in ssa.Instruction) {
 			st, ok := in.(*ssa.Store)
@@ -257,6 +260,22 @@ func c05Batching(w *World, r *Report) {
 				return
 			}
 			clear := false
+			defer func() {
+				if !clear || fieldAddrName(fa) != "Sequence" {
+					return
+				}
+				seqClears = append(seqClears, in)
+				// deferred by the proposer: runs on every exit of every proposal
+				if f.Parent() == proposer {
+					eachInstr(proposer, func(x ssa.Instruction) {
+						if d, ok := x.(*ssa.Defer); ok {
+							if mc, ok := d.Call.Value.(*ssa.MakeClosure); ok && mc.Fn == ssa.Value(f) {
+								seqClearedOnEveryProposal = true
+							}
+						}
+					})
+				}
+			}()
 			if fieldAddrName(fa) == "Sequence" {
 				if sl, ok := st.Val.(*ssa.Slice); ok {
 					if hi, isC := constInt(sl.High); isC && hi == 0 {
@@ -293,6 +312,37 @@ func c05Batching(w *World, r *Report) {
 				ob.Violate("cleared-before-propose@"+FnName(f), in.Pos(), "the pending sequence can be cleared before it was proposed")
 			}
 		})
+	}
+	// the proposed commands leave the sequence before the next command is appended
+	if !seqClearedOnEveryProposal {
+		isClear := func(x ssa.Instruction) bool { return containsInstr(seqClears, x) }
+		okClear := false
+		if proposer != fn {
+			// cleared inside the proposing closure on every way from the proposal to a success return
+			n := 0
+			okClear = true
+			eachInstr(proposer, func(x ssa.Instruction) {
+				if isSyncProposeCall(x) {
+					n++
+					if (&Walk{Barrier: isClear, Target: isSuccessReturn}).Find(after(x)) != nil {
+						okClear = false
+					}
+				}
+			})
+			okClear = okClear && n > 0
+		}
+		if !okClear {
+			// or in the batching loop between the proposal and the next append
+			okClear = true
+			eachInstr(fn, func(x ssa.Instruction) {
+				if isPropose(x) && (&Walk{Barrier: isClear, Target: isApp}).Find(after(x)) != nil {
+					okClear = false
+				}
+			})
+		}
+		if !okClear {
+			ob.Violate("proposed-commands-kept", app.Pos(), "after a proposal the next command can be appended to a sequence that still holds the commands already proposed: they are proposed - and applied - again")
+		}
 	}
 	// proposal error edge
 	eachInstr(fn, func(in ssa.Instruction) {
@@ -377,31 +427,19 @@ func c05LeaderIndexAtomic(w *World, r *Report, a *FsmA) {
 		return
 	}
 	var good []ssa.Instruction
-	eachInstr(fn, func(in ssa.Instruction) {
-		c := plainCall(in)
-		if c == nil || CalleeName(c) != "(*"+pebblePath+".Batch).Set" || !a.isCtxFieldLoad(c.Args[0], a.BatchFld) {
-			return
+	for _, s := range a.bookkeepingSets() {
+		if s.KeyG != gl["leader"] {
+			continue
 		}
-		if u, ok := c.Args[1].(*ssa.UnOp); !ok || u.X != ssa.Value(gl["leader"]) {
-			return
+		ob.Site(s.At.Pos(), "Set(leader index key, …)")
+		// *ctx.leaderIndex
+		u, ok := s.Val.(*ssa.UnOp)
+		if s.Val == nil || !ok || !a.isCtxFieldLoad(u.X, lf) {
+			ob.Violate("leader-index-value", s.At.Pos(), "the value written under the leader-index key is not filled from the context's leader index")
+			continue
 		}
-		buf := c.Args[2]
-		isFill := func(x ssa.Instruction) bool {
-			cc := plainCall(x)
-			if cc == nil || !strings.HasSuffix(CalleeName(cc), ".PutUint64") || len(cc.Args) < 3 || cc.Args[1] != buf {
-				return false
-			}
-			// *ctx.leaderIndex
-			u, ok := cc.Args[2].(*ssa.UnOp)
-			return ok && a.isCtxFieldLoad(u.X, lf)
-		}
-		ob.Site(in.Pos(), "Set(leader index key, …)")
-		if p := (&Walk{Barrier: isFill, Target: func(x ssa.Instruction) bool { return x == in }}).Find(entry(fn)); p != nil {
-			ob.Violate("leader-index-value", in.Pos(), "the value written under the leader-index key is not filled from the context's leader index")
-			return
-		}
-		good = append(good, in)
-	})
+		good = append(good, s.At)
+	}
 	if len(good) == 0 {
 		ob.Violate("leader-index-not-written", fn.Pos(), "the commit function never writes the leader index into the batch")
 		return
